@@ -546,6 +546,12 @@ class Driver:
     def rule(self, rng, broker, snap):
         return None
 
+    def queries(self, rng, broker, snap):
+        """read-only helpers a strategy may consult in a hook: [(label, callable)].  Their results are folded into the
+        seed of the decisions of that hook, so a helper that looks ahead shows up in actions / account rows, and one
+        that writes into the supplied frames shows up in the frame digests."""
+        return [("get_market_balance", self.m.get_market_balance)]
+
     def ops(self, rng, broker, snap, phase, script, density):
         """0..3 operations for this hook, all drawn from rng (which is seeded by what the hook was handed)"""
         n = {"before_bar": (0, 0, 1), "on_bar": (1, 1, 2), "after_bar": (0, 0, 1)}[phase][rng.randrange(3)]
@@ -610,6 +616,30 @@ class UniDriver(Driver):
         return G.Op(self.mtype, "buy", "rule", lambda: m.buy(a))
 
 
+    def queries(self, rng, broker, snap):
+        from demeter.uniswap.helper import base_unit_price_to_tick
+
+        m = self.m
+        out = super().queries(rng, broker, snap)
+        row = snap.market_status[self.mi]
+        sp = m.pool_info.tick_spacing
+        try:
+            cur = base_unit_price_to_tick(row["price"], m.token0.decimal, m.token1.decimal, m.pool_info.is_token0_quote)
+        except Exception:
+            return out
+        base = (cur // sp) * sp
+        lo, hi = int(base - sp * rng.randint(0, 20)), int(base + sp * rng.randint(1, 20))
+        val = Decimal(rng.choice([1, 100, 5000]))
+        out.append(("estimate_amount", lambda: m.estimate_amount(val, lo, hi)))
+        out.append(("tick_to_price", lambda: m.tick_to_price(lo)))
+        out.append(("price_to_tick", lambda: m.price_to_tick(row["price"])))
+        for k in list(m.positions.keys())[:2]:
+            out.append(("get_position_status", lambda k=k: m.get_position_status(k)))
+            out.append(("estimate_liquidity", lambda k=k: m.estimate_liquidity(val, k)))
+            out.append(("get_position_amount", lambda k=k: m.get_position_amount(k)))
+        return out
+
+
 class AaveDriver(Driver):
     def __init__(self, kind, m, world, tokens):
         super().__init__(kind, m)
@@ -640,6 +670,19 @@ class AaveDriver(Driver):
         t = rng.choice(sk)
         f = fr(rng, 0.1, 0.99)
         return G.Op("aave", "withdraw", "rule/max*f", lambda: m.withdraw(t, m.get_max_withdraw_amount(t) * f))
+
+
+    def queries(self, rng, broker, snap):
+        m = self.m
+        out = super().queries(rng, broker, snap)
+        t = rng.choice(self.tokens)
+        out += [("health_factor", lambda: m.health_factor), ("total_apy", lambda: m.total_apy), ("ltv", lambda: m.ltv),
+                ("get_max_borrow_amount", lambda: m.get_max_borrow_amount(t)), ("supplies_value", lambda: dict(m.supplies_value))]
+        for k in list(m.supply_keys)[:2]:
+            out.append(("get_max_withdraw_amount", lambda k=k: m.get_max_withdraw_amount(k)))
+        for k in list(m.borrow_keys)[:2]:
+            out.append(("get_max_repay_amount", lambda k=k: m.get_max_repay_amount(k)))
+        return out
 
 
 class SqueethDriver(Driver):
@@ -688,6 +731,18 @@ class SqueethDriver(Driver):
         return None
 
 
+    def queries(self, rng, broker, snap):
+        m = self.m
+        out = super().queries(rng, broker, snap)
+        out += [("get_twap_price/weth", lambda: m.get_twap_price(self.weth)), ("get_twap_price/osqth", lambda: m.get_twap_price(self.osqth)),
+                ("get_index", m.get_index), ("get_denormalized_mark", m.get_denormalized_mark), ("get_norm_factor", m.get_norm_factor),
+                ("collateral_amount_to_osqth", lambda: m.collateral_amount_to_osqth(Decimal(3), Decimal("1.7")))]
+        for vk in list(m.vault.keys())[:2]:
+            out.append(("get_collat_ratio_and_liq_price", lambda vk=vk: m.get_collat_ratio_and_liq_price(vk)))
+            out.append(("get_vault_status", lambda vk=vk: m.get_vault_status(vk)))
+        return out
+
+
 class DeribitDriver(Driver):
     def __init__(self, kind, m):
         super().__init__(kind, m)
@@ -718,6 +773,21 @@ class DeribitDriver(Driver):
         return G.Op("deribit", "buy", "rule", lambda: m.buy(name, amt))
 
 
+    def queries(self, rng, broker, snap):
+        m = self.m
+        out = super().queries(rng, broker, snap)
+        book = snap.market_status[self.mi]
+        if not isinstance(book, pd.DataFrame) or len(book.index) == 0:
+            return out
+        names = sorted(str(n) for n in book.index)
+        for name in rng.sample(names, min(2, len(names))):
+            amt = Decimal(rng.choice([1, 2, 5, 20]))
+            side = rng.choice(["buy", "sell"])
+            out.append((f"estimate_cost/{side}", lambda name=name, amt=amt, side=side: m.estimate_cost(name, amt, side)))
+        out.append(("get_trade_fee", lambda: m.get_trade_fee(Decimal(3), Decimal("0.2"))))
+        return out
+
+
 class GmxDriver(Driver):
     def __init__(self, kind, m, tokens):
         super().__init__(kind, m)
@@ -737,6 +807,16 @@ class GmxDriver(Driver):
             return G.Op("gmx", "buy_glp", "rule", lambda: m.buy_glp(t, a))
         a = G.q(m.glp_amount * fr(rng, 0.05, 0.7))
         return G.Op("gmx", "sell_glp", "rule", lambda: m.sell_glp(t, a))
+
+
+    def queries(self, rng, broker, snap):
+        m = self.m
+        out = super().queries(rng, broker, snap)
+        t = rng.choice(self.tokens)
+        a = Decimal(rng.choice([1, 50, 3000]))
+        out += [("get_redemption_amount", lambda: m.get_redemption_amount(t, a)), ("get_buy_usdg_fee_point", lambda: m.get_buy_usdg_fee_point(t, a)),
+                ("get_sell_usdg_fee_point", lambda: m.get_sell_usdg_fee_point(t, a)), ("get_target_amount", lambda: m.get_target_amount(t))]
+        return out
 
 
 class Gmx2Driver(Driver):
@@ -767,6 +847,7 @@ class Recorder:
         self.bars = {}
         self.accepted = 0
         self.notified = 0
+        self.queries = 0
 
     def _phase(self, phase, strat, snap):
         ts = snap.timestamp
@@ -778,6 +859,20 @@ class Recorder:
         rec[phase] = flat
         wallet = ",".join(f"{k.name}={v.balance}" for k, v in strat.broker.assets.items())
         key = sha("|".join(f"{k}={v}" for k, v in flat.items()) + "#" + wallet)
+        # read-only helpers first; what they answer takes part in every decision of this hook
+        qrng = random.Random(f"{self.spec.script_seed}|q|{phase}|{key}")
+        answers = []
+        for drv in self.drivers:
+            try:
+                qs = drv.queries(qrng, strat.broker, snap)
+            except Exception:  # noqa: the generator met a state it cannot handle
+                qs = []
+            for label, fn in qs:
+                res = Dr.call_op(fn)
+                self.queries += 1
+                answers.append(f"{drv.kind}.{label}=" + (canon(res.ret)[:200] if res.ok else type(res.exc).__name__))
+        rec["queries"] = rec.get("queries", 0) + len(answers)
+        key = sha(key + "?" + "|".join(answers))
         rng = random.Random(f"{self.spec.script_seed}|{phase}|{key}")
         for drv in self.drivers:
             for op in drv.ops(rng, strat.broker, snap, phase, self.spec.script, self.spec.density):
